@@ -90,8 +90,18 @@ where
     }
 
     /// Returns an iterator over the elements of the container.
+    ///
+    /// An empty element stands for an absent container (see `new`) and has no items.
+    /// A non-container element cannot get here through `new` / `from_tlv`; should one be
+    /// passed to `new_unchecked` nevertheless, it is treated like an absent container
+    /// rather than panicking.
     pub fn iter(&self) -> TLVContainerIter<'a, T> {
-        TLVContainerIter::new(unwrap!(self.element.container()).iter())
+        let seq = self
+            .element
+            .container()
+            .unwrap_or(crate::tlv::TLVSequence(&[]));
+
+        TLVContainerIter::new(seq.iter())
     }
 }
 
@@ -226,6 +236,12 @@ where
     C: 'a,
 {
     fn from_tlv(element: &TLVElement<'a>) -> Result<Self, Error> {
+        // Peer-supplied data: an element that is present but is not a container
+        // is an error here, not a panic later in `iter`
+        if !element.is_empty() {
+            element.container()?;
+        }
+
         Ok(Self::new_unchecked(element.clone()))
     }
 }
@@ -478,3 +494,26 @@ where
 //         write!(f, "]")
 //     }
 // }
+
+#[cfg(test)]
+mod tests {
+    use crate::cert::CertRef;
+    use crate::tlv::{FromTLV, TLVArray, TLVElement};
+
+    #[test]
+    fn absent_or_malformed_container_does_not_panic() {
+        // An absent container (what `find_ctx` returns when the tag is missing) has no items
+        let arr = unwrap!(TLVArray::<u8>::new(TLVElement::new(&[])));
+        assert_eq!(arr.iter().count(), 0);
+
+        // A present element that is not a container is refused when parsed
+        assert!(TLVArray::<u8>::from_tlv(&TLVElement::new(&[0x04, 0x01])).is_err());
+
+        // A certificate without issuer / subject lists is an error, not a panic
+        let mut buf = [0; 256];
+        let cert = CertRef::new(TLVElement::new(&[
+            0x15, 0x30, 0x01, 0x01, 0x00, 0x24, 0x02, 0x01,
+        ]));
+        assert!(cert.as_asn1(&mut buf).is_err());
+    }
+}
